@@ -23,6 +23,7 @@ CONSTANTS
   BugZeroCostHeld = FALSE
   SplitOnlyAtEnqueue = TRUE
   DropOnClose = FALSE
+  WriteErrorEndsReader = FALSE
   ForwardInitWin = FALSE
   WithSettings = TRUE
 INVARIANTS WithinGrant WithinMaxFrame CreditReturned NoEligibleQueued LedgerAgrees PrefixFidelity Conserved HpackInOrder
